@@ -19,7 +19,10 @@ SCOPE = {
 }
 # which stand-ins back which property
 BY_PROP = {"C01": ["rbt", "avl", "btree"], "C02": ["rbt", "avl", "btree"], "C07": ["rbt", "avl", "btree"], "C08": ["btree"],
-           "C15": ["avl", "btree"], "C17": ["rbt", "avl", "btree"]}
+           "C15": ["rbt", "avl", "btree"], "C17": ["rbt", "avl", "btree"],
+           # the extras (bsCheckExtras): B-tree JSON (outside the deductive subset), String() of the three trees, B-tree Keys()/Values()
+           # snapshots, purity of the B-tree's read-only operations
+           "C11": ["btree"], "C12": ["btree"], "C16": ["avl", "btree"], "C18": ["rbt", "avl", "btree"]}
 
 def run_tree(tree, tier, tmp):
     pkgdir, tmpl = TREES[tree]
@@ -50,7 +53,7 @@ def main():
             ok = re.search(r"BOUNDED-OK .*", out)
             vio = re.search(r"BOUNDED-VIOLATION (.*)", out)
             entry = {"stand_in_for": {"rbt": "redblacktree Remove and colour layer (deleteCase1-6, balance)", "avl": "avltree put/remove/removeMin/putFix/removeFix/rotations",
-                                      "btree": "btree Put/Remove (insert/split/delete/rebalance), navigation and iterator"}[tree],
+                                      "btree": "btree Put/Remove (insert/split/delete/rebalance), navigation, iterator, JSON, String, snapshots, purity of observers"}[tree],
                      "level": "bounded", "seconds": round(secs, 1)}
             if ok:
                 m = re.search(r"histories=(\d+) operations=(\d+) max_comparator_calls=(\d+) scope=\"(.*)\"", ok.group(0))
